@@ -483,10 +483,29 @@ for nm, st, fn in [('LIST.BVAL', 'bool', 'nth_bool'), ('LIST.IVAL', 'int', 'nth_
         pushes=[(st, 'crate::push::item::%s(top(S0.code, %s), top(S0.int, 0) as usize as nat)' % (fn, _k2))])
 # ADD / SET move items between all typed stacks (footprint: every stack a stack id can name, and CODE)
 _typed = ['bool', 'boolvec', 'code', 'exec', 'float', 'floatvec', 'int', 'intvec', 'name']
+_T = 'crate::push::list::typed_of(S0)'
+_c = 'crate::push::list::after_ids(%s).0' % _T
+_items = 'crate::push::list::after_ids(%s).1' % _T
+_others = ' && '.join('S1.%s == %s.%s_s' % (f, _c, f) for f in ['bool', 'boolvec', 'exec', 'float', 'floatvec', 'int', 'intvec', 'name'])
+# ADD: exactly the designated items (vector order, empty stacks skipped) are removed and one record containing them is pushed
 row('LIST.ADD', ['C19'], touches=_typed, clauses=[
+    ('fired.record', 'S0.intvec.len() >= 1 ==> (%s && S1.code.len() == %s.code_s.len() + 1 && drop_n(S1.code, 1) =~= %s.code_s '
+     '&& top(S1.code, 0) is List && top(S1.code, 0)->items@ == %s)' % (_others, _c, _c, _items)),
     ('{C19,C10}unfired', 'S0.intvec.len() == 0 ==> (S1.bool == S0.bool && S1.boolvec == S0.boolvec && S1.code == S0.code && S1.exec == S0.exec '
      '&& S1.float == S0.float && S1.floatvec == S0.floatvec && S1.int == S0.int && S1.intvec == S0.intvec && S1.name == S0.name)')])
+# SET: the record address (top INTEGER, clamped into the CODE stack as it is BEFORE the items are collected) is replaced by the new record
+_T2 = 'crate::push::list::Typed { int_s: S0.int.drop_last(), ..crate::push::list::typed_of(S0) }'
+_c2 = 'crate::push::list::after_ids(%s).0' % _T2
+_items2 = 'crate::push::list::after_ids(%s).1' % _T2
+_others2 = ' && '.join('S1.%s == %s.%s_s' % (f, _c2, f) for f in ['bool', 'boolvec', 'exec', 'float', 'floatvec', 'int', 'intvec', 'name'])
+_addr = 'clamp_idx(top(S0.int, 0) as int, S0.code.len() as int)'
 row('LIST.SET', ['C19'], touches=_typed, clauses=[
+    ('fired.record', '(S0.int.len() >= 1 && S0.intvec.len() >= 1) ==> (%s && S1.code.len() == %s.code_s.len() '
+     '&& (forall|i: int| 0 <= i < S1.code.len() && i != S1.code.len() - 1 - %s ==> S1.code[i] == %s.code_s[i]) '
+     '&& (%s < S1.code.len() ==> S1.code[S1.code.len() - 1 - %s] is List && S1.code[S1.code.len() - 1 - %s]->items@ == %s))'
+     % (_others2, _c2, _addr, _c2, _addr, _addr, _addr, _items2)),
+    ('fired.noids', '(S0.int.len() >= 1 && S0.intvec.len() == 0) ==> (S1.int =~= S0.int.drop_last() && S1.code == S0.code && S1.bool == S0.bool && S1.boolvec == S0.boolvec '
+     '&& S1.exec == S0.exec && S1.float == S0.float && S1.floatvec == S0.floatvec && S1.intvec == S0.intvec && S1.name == S0.name)'),
     ('{C19,C10}unfired', 'S0.int.len() == 0 ==> (S1.bool == S0.bool && S1.boolvec == S0.boolvec && S1.code == S0.code && S1.exec == S0.exec '
      '&& S1.float == S0.float && S1.floatvec == S0.floatvec && S1.int == S0.int && S1.intvec == S0.intvec && S1.name == S0.name)')])
 # NEIGHBOR*: operands and which stack receives the result (geometry: C20)
@@ -689,9 +708,10 @@ _g1 = 'S1.graph.live().last()'
 ROWS['GRAPH.NODE*ADD'].clauses += [
     ('fired.int-shape', '(S0.graph.n() >= 1 && S0.int.len() >= 1) ==> S1.int.len() == S0.int.len() && drop_n(S1.int, 1) =~= drop_n(S0.int, 1)'),
     ('fired.edges-kept', '(S0.graph.n() >= 1 && S0.int.len() >= 1) ==> %s.edges@ == %s.edges@' % (_g1, _g0)),
-    ('fired.node-added', '(S0.graph.n() >= 1 && S0.int.len() >= 1) ==> '
-     '(exists|id: usize| (#[trigger] %s.nodes@.contains_key(id)) && %s.nodes@[id].sstate() == top(S0.int, 0) && (id <= 0x7fff_ffff ==> top(S1.int, 0) == id) '
-     '&& %s.nodes@.remove(id) == %s.nodes@.remove(id))' % (_g1, _g1, _g1, _g0))]
+    # (that a node with the popped state is added under the pushed id is Graph::add_node's own contract; at the row level the
+    #  witness-free part is stated: no node is lost, and any node that differs from before carries the popped state)
+    ('fired.no-node-lost', '(S0.graph.n() >= 1 && S0.int.len() >= 1) ==> (forall|k: usize| (#[trigger] %s.nodes@.contains_key(k)) ==> %s.nodes@.contains_key(k) '
+     '&& (%s.nodes@[k] == %s.nodes@[k] || %s.nodes@[k].sstate() == top(S0.int, 0)))' % (_g0, _g1, _g1, _g0, _g1))]
 _id = 'top(S0.int, 0)'
 ROWS['GRAPH.NODE*GETSTATE'].clauses += [
     ('fired.state-pushed', '(S0.graph.n() >= 1 && S0.int.len() >= 1) ==> S1.int =~= '
